@@ -59,6 +59,10 @@ claim("C14", "Coq proof (buffer-size independence of the scanner, signature reco
       "Proof: scanning buffer by buffer equals scanning the whole byte string; from every searching state of the (repaired) automaton the signature and 16 header bytes yield a candidate with both length fields decoded; search reports only offsets that parsed as cabinets. The extracted search loop (with parse = a generated cabinet starts here) and the C search() must report the same offsets on generated files; found cabinets are compared with the generator (offsets, listings via extraction of every member) for buffer sizes 4..64 and 32768. Completeness of the whole loop (every cabinet not nested in an earlier one is reported) is checked by the oracle, not proved.",
       NOTE, "4/C14")
 
+claim("C16", "Coq proof (port of create_output_name: no dot-dot-slash, no leading slash, no NUL, buffer bound, for every name and case-folding function) + port vs C function + sandboxed runs of the cabextract binary with planted symlinks",
+      "Proof: for every byte string as member name, every case-folding function, both separator conventions, UTF-8 or not: the name after 'dir/' contains no '../' or '..\\', does not start with a slash, has no NUL and fits 4 bytes per input byte (5 theorems, closed). The port is compared with the C function on generated names. The file-system half (ensure_filepath / can_write / fopen never going through a symlink in the archive-controlled part) is checked only by running the built binary in sandbox trees with planted live and dangling links and comparing the tree outside the destination before and after; races with other processes and the kernel are outside any model.",
+      NOTE, "4/C16")
+
 def main():
     props = [json.loads(l)["id"] for l in open(os.path.join(V, "properties.jsonl"))]
     # only claim what has a check module
